@@ -269,30 +269,28 @@ func (s *Store) BatchUpdateDagIns(dagIns []*entity.DagInstance) error {
 	ctx, cancel := context.WithTimeout(context.TODO(), s.opt.Timeout)
 	defer cancel()
 
-	errChan := make(chan error)
-	defer close(errChan)
-
 	errs := &data.Errors{}
-	go func() {
-		for err := range errChan {
-			errs.Append(err)
-		}
-	}()
+	errsMutex := sync.Mutex{}
 
 	wg := sync.WaitGroup{}
 	for i := range dagIns {
 		wg.Add(1)
-		go func(dag *entity.DagInstance, ch chan error) {
+		go func(dag *entity.DagInstance) {
+			defer wg.Done()
 			dag.Update()
 			if _, err := s.mongoDb.Collection(s.dagInsClsName).ReplaceOne(
 				ctx,
 				bson.M{"_id": dag.ID}, dag); err != nil {
-				errChan <- fmt.Errorf("batch update dag instance failed: %w", err)
+				errsMutex.Lock()
+				errs.Append(fmt.Errorf("batch update dag instance failed: %w", err))
+				errsMutex.Unlock()
 			}
-			wg.Done()
-		}(dagIns[i], errChan)
+		}(dagIns[i])
 	}
 	wg.Wait()
+	if errs.Len() > 0 {
+		return errs
+	}
 	return nil
 }
 
